@@ -59,6 +59,8 @@ def gen_cases(ctx):
         method = None
         if q == "root_decomposition":
             method = rng.choice(ROOT_METHODS)
+            if zoo.spec_classes(spec) & {"Interpolated", "ConstantMul", "Kernel"} and rng.random() < 0.4:
+                method = "pivoted_cholesky"  # classes whose approximate diagonal is not their diagonal
         elif q == "root_inv_decomposition":
             method = rng.choice(ROOT_INV_METHODS)
         elif q == "diagonalization":
